@@ -10,6 +10,8 @@ with coefficient +1 (C04.order / C04.acc / C04.mask).
 
 from __future__ import annotations
 
+import ast
+
 import itertools
 
 from .. import AnalysisError
@@ -345,7 +347,8 @@ def composite(ctx, repo, c):
 
     for n, m in methods.items():
         fold(repo, m, c, assume=recorder)
-    flags = list(seen)
+    # compound tests (`not (a or b)`, a property combining flags) are decided from their parts: only the atomic conditions are flags
+    flags = [c_ for c_ in seen if c_[0] not in ("not", "and", "or")]
     ctx.count("composite_guards", len(flags))
     if not (1 <= len(flags) <= 4):
         ctx.unknown("C04.order", construct, loc_of(methods["forward"]), f"found {len(flags)} guards: {[T.show(f) for f in flags]}")
@@ -469,6 +472,25 @@ def run(ctx):
     repo = ctx.repo
     from . import cachecoh
     cachecoh.rule(ctx, "C04.stale", ("aspire.transforms",), "the reported log-Jacobian is that of an earlier fit, not of the map now applied")
+    # ---- every constructor parameter of a transform takes effect: it is stored, read, or handed to super().__init__ (a parameter that is
+    #      accepted and dropped leaves the map built with the default -- e.g. a clipping margin other than the one the composite reports)
+    n_par = 0
+    for tc in repo.modules["aspire.transforms"].classes.values():
+        init_ = tc.methods.get("__init__")
+        if init_ is None:
+            continue
+        a_ = init_.node.args
+        if a_.kwarg is not None:
+            continue
+        used_ = {n.id for n in ast.walk(init_.node) if isinstance(n, ast.Name) and isinstance(n.ctx, ast.Load)}
+        for prm in [x.arg for x in a_.args[1:] + a_.kwonlyargs]:
+            n_par += 1
+            if prm not in used_:
+                ctx.refute("C04.wire", f"{tc.ident}.__init__", loc_of(init_),
+                           f"{tc.name}.__init__ accepts `{prm}` and never reads it: the transform is built with the default instead of the value its caller (the composite, load()) passes", disc=f"param|{prm}")
+    ctx.count("transform_constructor_parameters", n_par)
+    ctx.prove("C04.wire", "aspire.transforms", "src/aspire/transforms.py", f"constructor parameters of the transform classes examined for use: {n_par}", disc="params")
+    ctx.floor("transform constructor parameters examined", n_par, 25)
     classes = leaf_classes(repo)
     comp = repo.cls(f"{TR}:CompositeTransform")
     flowpre = repo.cls(f"{TR}:FlowPreconditioningTransform")
@@ -734,6 +756,10 @@ def _stores_state(f):
 _T = "src/aspire/transforms.py"
 _U = "src/aspire/utils.py"
 MUTANTS = [
+    M("logit transform accepts eps and drops it (the base class keeps its default)", _T, "super().__init__(xp=xp, dtype=dtype, lower=lower, upper=upper)\n        self.eps = eps\n\n    def fit(self, x: Array) -> Array:\n        return self.forward(x)[0]\n\n    def forward(self, x: Array) -> tuple[Array, Array]:\n        y, log_j_unit = self.to_unit_interval(x)",
+      "super().__init__(xp=xp, dtype=dtype, lower=lower, upper=upper)\n        self.eps = 1e-6\n\n    def fit(self, x: Array) -> Array:\n        return self.forward(x)[0]\n\n    def forward(self, x: Array) -> tuple[Array, Array]:\n        y, log_j_unit = self.to_unit_interval(x)", "C04.wire"),
+    M("fast path for 'volume preserving' composites skips the periodic wrap in forward", _T, "log_abs_det_jacobian = self.xp.zeros(len(x), device=self.device)\n        if self.periodic_parameters:\n            y, log_j_periodic = self._periodic_transform.forward(",
+      "log_abs_det_jacobian = self.xp.zeros(len(x), device=self.device)\n        if not (self.bounded_parameters or self.affine_transform):\n            return x, log_abs_det_jacobian\n        if self.periodic_parameters:\n            y, log_j_periodic = self._periodic_transform.forward(", "C04.order"),
     M("affine inverse Jacobian sign", _T, "return x, -self.log_abs_det_jacobian * self.xp.ones(", "return x, self.log_abs_det_jacobian * self.xp.ones(", "C04.anti"),
     M("affine inverse forgets mean", _T, "x = y * self._std + self._mean", "x = y * self._std", "C04.rt"),
     M("unit interval inverse Jacobian sign", _T, "log_j = -self._scale_log_abs_det_jacobian * self.xp.ones(", "log_j = self._scale_log_abs_det_jacobian * self.xp.ones(", "C04.anti"),
